@@ -21,7 +21,28 @@ def gen_case(rng, cid, mode):
     return {"id": cid, "script": sc, "arg": rng.randint(0, 50), "handlers": hs}
 
 
+def run_static(out, tier, seed):
+    """skeleton programs: the stream of every (focus, context) choice against the twin's binding history"""
+    import random
+    from .. import progcheck as PC, skeletons as SK
+    from . import c01
+    rng = random.Random(seed * 7919 + 29)
+    if tier == "quick":
+        progs = SK.family_f1(quick=True) + SK.family_f6() + [SK.random_program(rng, 7000 + i) for i in range(60)]
+        opts = {"maxiter": 2, "maxraise": 1, "kinds": ["tuple", "list"], "maxpaths": 6, "seed": seed, "npairs": 4,
+                "variants": ["singles", "all", "generic", "pairs"], "gen_drive": False}
+    else:
+        progs = SK.family_f1(quick=False) + SK.family_f6() + [SK.random_program(rng, 7000 + i) for i in range(1500)]
+        opts = {"maxiter": 2, "maxraise": 1, "kinds": ["tuple", "list", "str"], "maxpaths": 40, "seed": seed, "npairs": 8,
+                "variants": ["singles", "all", "generic", "pairs"], "gen_drive": True}
+    out.clause_filter = lambda sig: sig["clause"] == "Stream"
+    traces, fails, nruns = PC.run_family(out, progs, opts, "C02")
+    out.extra.update({"programs": len(progs), "paths": len(traces), "probe_runs": nruns})
+
+
 def run(out, tier, seed):
+    run_static(out, tier, seed)
+    out.clause_filter = None
     P.run_world(out, tier, seed, gen_case, PLAN, salt=19,
                 rule="random binding sequences (parameter, plain, augmented, annotated, loop target) with loops, early exits "
                      "and exceptions x every ordered choice (focus, <=2 context variables) among a,b,c,i,p; one event per "
